@@ -15,30 +15,42 @@ from .. import core
 from ..gen import gen_c03
 
 LEVEL = 'translation_validation'
-LEVEL_TEXT = ('The reader is decided by an executable Lean model that mirrors tokenizer, atom parser, parser, front end and '
-              'numbering branch by branch, validated against the real functions on every run (exhaustive over all short '
-              'strings of the SMILES alphabet, generated and corpus strings, corruptions), plus universally quantified '
-              'theorems about that model: no input can reach an unrelated exception (full), the parser result is well formed, '
-              'for every syntax tree of the grammar (branches, dots, bond symbols, direction marks, ring closures) the parser '
-              'builds exactly the graph an independent denotational semantics assigns, and without ring closures acceptance is '
-              'equivalent to being in the grammar; tables regenerated from the source are proved equal to the charge / bond '
-              'semantics of the language. An independent reference reader and RDKit judge the real reader on every run. '
+LEVEL_TEXT = ('The reader is decided by an executable Lean model that mirrors tokenizer, atom parser, parser, front end, '
+              'numbering, the structural part and the hydrogen/radical loop of create_molecule branch by branch (the valence rules '
+              'are C04\'s executable model over the regenerated periodic table), validated against the real functions on every run '
+              '(exhaustive over all short strings of the SMILES alphabet, generated and corpus strings, corruptions, hydrogen grids '
+              'in every reaction role and for every combination of the keywords that act in the hydrogen loop), plus universally '
+              'quantified theorems about that model: no input can reach an unrelated exception (full), the parser result is well '
+              'formed, for every syntax tree of the grammar the parser builds exactly the graph an independent denotational '
+              'semantics assigns, and for ALL token lists (ring closures included) acceptance by parser + bond loop is equivalent to '
+              'being a sentence of the language with the ring-closure discipline of the spec, up to three named tolerated classes; '
+              'the same on smiles() itself for one-word strings; unbracketed organic atoms get the OpenSMILES hydrogen count up to '
+              'the lowest normal valence, bracket atoms keep the written count exactly when the valence model admits it; tables '
+              'regenerated from the source are proved equal to the charge / bond semantics of the language. An independent '
+              'reference reader and RDKit judge the real reader (graph, atom numbers, hydrogens, radicals, configuration) on every '
+              'run, and the reader is checked against itself (molecule vs reaction role) for every forwarded keyword argument. '
               'Translation validation is the right level because the hand-written model is tied to the Python text by '
               'differential execution, not by a proof about the Python text.')
-LEVEL_NOTE = ('Trusted: Lean kernel; gen_c03 translator (CPython sre parser for atom_re, AST of _tokenize); the harness '
-              'canonicaliser; hand transcription of the Python control flow (validated, not proved); str.isnumeric/str.split '
-              'modelled for ASCII only; calc_implicit / stereo assignment after graph construction are outside the model.')
-TECHNIQUE = 'Lean 4 executable model + theorems (invariants, denotational spec) + exhaustive/generated differential correspondence'
+LEVEL_NOTE = ('Trusted: Lean kernel; gen_c03 translator (CPython sre parser for atom_re, AST of _tokenize); gen_periodic translator '
+              '(valence tables); the harness canonicaliser; hand transcription of the Python control flow (validated, not proved); '
+              'str.isnumeric/str.split modelled for ASCII only; calc_labels (ring perception for hybridization) and stereo '
+              'assignment after graph construction are outside the model.')
+TECHNIQUE = 'Lean 4 executable model + theorems (invariants, denotational spec, inversion) + exhaustive/generated differential correspondence'
 RULE = ('strings: (a) every string up to a length bound over the SMILES alphabet, (b) every bracket-atom body up to a bound '
         'over the bracket alphabet, (c) grammar-generated molecules/reactions/CXSMILES, (d) corpus + repository test strings, '
         '(e) single-edit corruptions of (c),(d), (f) grids: ring-bond symbol pairs, reaction fragment groupings, stereo '
-        'templates. An evaluation is one program (smiles_tokenize, smiles, smiles-vs-reference-reader) run on one string; '
-        'a string is non-trivial when it has at least 2 characters; distinct = distinct non-trivial strings.')
+        'templates, hydrogen grid (every organic / bracket / charged / aromatic centre x bonding environment x molecule / each '
+        'reaction role / next to other molecules / CXSMILES radical mark), (g) the hydrogen grid under all 8 combinations of '
+        'keep_implicit / ignore_aromatic_radicals / ignore_carbon_radicals (model vs code), (h) molecule-vs-reaction-role '
+        'agreement of the real reader for every forwarded keyword. An evaluation is one program (smiles_tokenize, smiles, '
+        'smiles-with-options, smiles-vs-reference-reader, role relation) run on one string; a string is non-trivial when it has '
+        'at least 2 characters; distinct = distinct non-trivial (program, string, options) cases.')
 TRUSTED = ['gen_c03 translator (atom_re via CPython sre parser into a restricted normal form; _tokenize character classes via AST)',
+           'gen_periodic translator (valence tables used by the hydrogen loop; shared with C04)',
            'hand-written model of the two CXSMILES regexes (translator refuses to run if the patterns change)']
 ASSUMPTIONS = ['ASCII input (str.isnumeric / str.split whitespace modelled for ASCII)',
-               'default keyword arguments of smiles() (ignore=True, remap=False)',
-               'calc_implicit, radical guessing and stereo assignment never raise under ignore=True (checked on every generated input, not proved)']
+               'default keyword arguments of smiles() (ignore=True, remap=False) except the three hydrogen-loop keywords, which are modelled',
+               'calc_labels and stereo assignment never raise under ignore=True (checked on every generated input, not proved)']
 HAS_DRIVER = True
 EXTRA_MODULES = []
 FINDINGS_MODULE = 'ChythonModel.Findings.C03'
@@ -647,7 +659,7 @@ def features(s):
 
 
 def correspond(ctx):
-    ctx.cov['programs'] = 10  # smiles, smiles_tokenize, _tokenize, _atom_parse, parser, postprocess_parsed_molecule, postprocess_parsed_reaction, create_molecule, create_reaction (+ smiles() judged by reference reader / RDKit)
+    ctx.cov['programs'] = 12  # + hydrogen loop of create_molecule (per atom), smiles(**hydrogen keywords); smiles, smiles_tokenize, _tokenize, _atom_parse, parser, postprocess_parsed_molecule, postprocess_parsed_reaction, create_molecule, create_reaction (+ smiles() judged by reference reader / RDKit)
     if not ctx.build_ok:
         ctx.notes.append('driver not built: correspondence skipped; reference-reader / RDKit stream still runs')
     known_sigs = {f['signature'] for f in core.load_findings('C03') if f['status'] == 'known'}
